@@ -824,7 +824,29 @@ class System:
                     print("{}Tolerances met after {} iterations".format(pname, iters))
                 break
             v, i, state = vi, ii, ostate
+        if iters <= maxiter:
+            self._chk_polarity(v, state)
         return v, i, iters, state
+
+    def _chk_polarity(self, v, state):
+        """Reject a steady state where a source, switch or mux has inverted its input"""
+        for n in self._topo_nodes:
+            ctype = self._g[n]._component_type.name
+            if ctype not in ["SOURCE", "PSWITCH", "PMUX"] or v[n] == 0.0:
+                continue
+            p = self._parents[n]
+            if p == -1:
+                vin = self._g[n]._params["vo"]
+            else:
+                pstate = {"off": [state[i]["off"][0] for i in p]}
+                pinp = self._g[n]._get_pri_inp(pstate, [v[i] for i in p])
+                vin = v[p[max(pinp, 0)]]
+            if np.sign(v[n]) != np.sign(vin):
+                raise ValueError(
+                    "Unstable system: {} component '{}' has inverted output voltage".format(
+                        type(self._g[n]).__name__, self._g[n]._params["name"]
+                    )
+                )
 
     def _calc_energy(self, phase, pwr):
         """Calculate energy per 24h"""
